@@ -7,6 +7,7 @@ import SwiftMT.Classify
 import SwiftMT.Tokeniser
 import SwiftMT.Fields.Registry
 import SwiftMT.Rules
+import SwiftMT.JsonShape
 import Driver.Hex
 /-
 Line-protocol driver over the executable model: one request per line on stdin, one answer per line on
@@ -192,6 +193,11 @@ def handle (args : List String) : String :=
         | none => "#skip")
       | none => "bad-json")
     | _, _ => "bad-op"
+  | ["conf", ty, i] => match unhex i with
+    | some txt => (match J.parse txt with
+      | some m => if conforms ty m then "ok" else "nonconforming"
+      | none => "bad-json")
+    | none => "bad-op"
   | ["vallist"] => ",".intercalate (Rules.modelled.map (fun p => toString p.1))
   | ["fldlist"] => ",".intercalate (Fields.registry.map (·.1))
   | ["fld", name, i] => match unhex i with
